@@ -64,7 +64,8 @@ Inductive op :=
   | EqOSet (other : list Z)                (* == with an ordered set of the same class *)
   | Le (other : list Z) | Lt (other : list Z) | Ge (other : list Z) | Gt (other : list Z)
   | Sub (it : iterable)                    (* Set.__sub__ mixin *)
-  | Copy.
+  | Copy
+  | IndexRange (x start : Z) (stop : option Z).   (* Sequence.index(value, start[, stop]) mixin *)
 
 Definition len (l : list Z) : Z := Z.of_nat (length l).
 
@@ -80,6 +81,17 @@ Fixpoint index_from (l : list Z) (x : Z) (i : Z) : out :=
   | [] => OErr ValueError
   | y :: r => if Z.eqb y x then OInt i else index_from r x (i + 1)
   end.
+
+(* Sequence.index(value, start, stop): a negative start is clamped to max(len + start, 0), a negative
+   stop gets len added once; the scan runs from start while i < stop and ends at the first
+   IndexError of self[i] *)
+Definition norm_start (n start : Z) : Z := if start <? 0 then Z.max (n + start) 0 else start.
+Definition norm_stop (n : Z) (stop : option Z) : Z :=
+  match stop with None => n | Some s => if s <? 0 then s + n else s end.
+Definition index_range (l : list Z) (x start : Z) (stop : option Z) : out :=
+  let a := norm_start (len l) start in
+  let b := norm_stop (len l) stop in
+  index_from (firstn (Z.to_nat (b - a)) (skipn (Z.to_nat a) l)) x a.
 
 Definition list_eqb (a b : list Z) : bool :=
   (Nat.eqb (length a) (length b)) && forallb (fun p => Z.eqb (fst p) (snd p)) (combine a b).
@@ -147,6 +159,7 @@ Definition step (l : list Z) (o : op) : list Z * out :=
   | Gt other => (l, OBool ((Z.of_nat (length other) <? Z.of_nat (length l)) && subset other l))
   | Sub it => (l, OList (drop_in l (fst (traverse it))))
   | Copy => (l, OList l)
+  | IndexRange x start stop => (l, index_range l x start stop)
   end.
 
 (* A history: the implementation's observations (state after the op, output) are recorded by the
